@@ -186,7 +186,8 @@ def decode(m, case=None):
     a = m.index(-3)
     b = m.index(-4)
     return {'out': m[0], 'c03_args_bad': m[1], 'c03_result_bad': m[2], 'c04_call_ok': m[3], 'c04_result_ok': m[4],
-            'c05_positional': m[5], 'no_iter': m[6], 'journal': decode_journal(m[a + 1:b]), 'twin_out': m[b + 1],
+            'c05_positional': m[5], 'no_iter': m[6], 'no_iter_consumed': m[7], 'result_intact': m[8], 'res_drained': m[9],
+            'c03_positional_bad': m[10], 'journal': decode_journal(m[a + 1:b]), 'twin_out': m[b + 1],
             'twin_journal': decode_journal(m[b + 2:])}
 
 
@@ -243,25 +244,99 @@ def strip_iters(v, keep_top):
     return v
 
 
-def iter_ok_under(a):
-    return a is not None and (a[0] == 'any' or a == ['cls', 'object'] or (a[0] == 'gen' and a[1] == 'typing' and a[2] == 'Iterable'))
+ELEMENTWISE = ('List', 'Set', 'FrozenSet', 'Deque', 'Iterable', 'Collection', 'Container', 'Sequence', 'MutableSequence', 'AbstractSet',
+               'MutableSet', 'KeysView', 'ValuesView')
+MAPPINGS = ('Dict', 'DefaultDict', 'OrderedDict', 'Mapping', 'MutableMapping')
+
+
+def no_empty_iters(v):
+    """an empty iterator cannot be observed to be consumed: use a list"""
+    k = v[0]
+    if k == 'iter':
+        return ['iter' if v[1] else 'list', [strip_iters(x, False) for x in v[1]]]
+    if k in ('list', 'tuple', 'set', 'frozenset', 'deque', 'keys', 'values'):
+        return [k, [no_empty_iters(x) for x in v[1]]]
+    if k in ('dict', 'defaultdict', 'ordereddict', 'items'):
+        return [k, [[strip_iters(a, False), no_empty_iters(b)] for a, b in v[1]]]
+    return v
+
+
+def place_iters(a, v):
+    """one-shot iterators stay exactly where the model's account of the checker's traversal (Model.Pedantic.drain) is exact: reached
+    through generics, Tuple[...] and Optional[...] only (every union member that traverses must accept), never inside another
+    iterator, a set or a key; under Any / object (nothing is traversed) anywhere.  Everywhere else a list takes their place."""
+    if a is None:
+        return strip_iters(v, False)
+    k, ak = v[0], a[0]
+    if ak == 'any' or a == ['cls', 'object']:
+        return no_empty_iters(v)
+    if ak == 'union' and len(a[2]) == 2 and ['cls', 'NoneType'] in a[2]:
+        other = [x for x in a[2] if x != ['cls', 'NoneType']]
+        return place_iters(other[0], v) if other and v != ['none'] else strip_iters(v, False)
+    if ak == 'newtype':
+        return place_iters(a[1], v)
+    if ak == 'tuplevar' and k == 'tuple':
+        return [k, [place_iters(a[2], x) for x in v[1]]]
+    if ak == 'gen':
+        o, args = a[2], a[3]
+        if k == 'iter':
+            return ['iter' if (v[1] and o == 'Iterable') else 'list', [strip_iters(x, False) for x in v[1]]]
+        if o in ELEMENTWISE and len(args) == 1 and k in ('list', 'tuple', 'deque', 'values'):
+            return [k, [place_iters(args[0], x) for x in v[1]]]
+        if (o in MAPPINGS and k in ('dict', 'defaultdict', 'ordereddict') or o == 'ItemsView' and k == 'items') and len(args) == 2:
+            return [k, [[strip_iters(x, False), place_iters(args[1], y)] for x, y in v[1]]]
+        if o == 'Tuple' and k == 'tuple' and len(args) == len(v[1]):
+            return [k, [place_iters(x, y) for x, y in zip(args, v[1])]]
+    return strip_iters(v, False)
 
 
 def conf(rng, a):
     for _ in range(4):
         v = GC.gen_conf(rng, a)
         if v is not None:
-            return strip_iters(v, iter_ok_under(a))
+            if rng.random() < 0.5:
+                v = nest_iter(rng, a, v)
+            return place_iters(a, v)
     return None
 
 
-def gen_ann_val(rng, depth=None):
+def nest_iter(rng, a, v):
+    """turn a list that sits directly under Iterable[...] somewhere inside v into a one-shot iterator (nested consumption)"""
+    if a is None:
+        return v
+    if a[0] == 'gen' and a[2] == 'Iterable' and len(a[3]) == 1 and v[0] in ('list', 'tuple') and v[1]:
+        return ['iter', v[1]]
+    if a[0] == 'union' and v != ['none']:
+        other = [x for x in a[2] if x != ['cls', 'NoneType']]
+        return nest_iter(rng, other[0], v) if len(other) == 1 else v
+    if a[0] == 'gen' and len(a[3]) == 1 and v[0] in ('list', 'tuple', 'deque'):
+        return [v[0], [nest_iter(rng, a[3][0], x) for x in v[1]]]
+    if a[0] == 'gen' and len(a[3]) == 2 and v[0] in ('dict', 'defaultdict', 'ordereddict'):
+        return [v[0], [[x, nest_iter(rng, a[3][1], y)] for x, y in v[1]]]
+    if a[0] == 'gen' and a[2] == 'Tuple' and v[0] == 'tuple' and len(a[3]) == len(v[1]):
+        return ['tuple', [nest_iter(rng, x, y) for x, y in zip(a[3], v[1])]]
+    return v
+
+
+def iter_ann(rng):
+    """an annotation under which the checker iterates a one-shot iterator: Iterable[X] itself, or below the top level
+    (Optional[Iterable[X]], List[Iterable[X]], Dict[str, Iterable[X]], Tuple[int, Iterable[X]], ...)"""
+    if rng.random() < 0.55:
+        return ['gen', 'typing', 'Iterable', [GC.gen_ann(rng, 0)]]
+    it = ['gen', 'typing', 'Iterable', [rng.choice([['cls', 'int'], ['cls', 'str'], ['any']])]]
+    return rng.choice([['union', 'typing', [it, ['cls', 'NoneType']]], ['gen', 'typing', 'List', [it]],
+                       ['gen', 'typing', 'Dict', [['cls', 'str'], it]], ['gen', 'typing', 'Tuple', [['cls', 'int'], it]],
+                       ['gen', 'builtin', 'List', [it]], ['union', 'typing', [['gen', 'typing', 'List', [it]], ['cls', 'NoneType']]],
+                       ['gen', 'typing', 'Sequence', [it]], ['tuplevar', 'typing', it]])
+
+
+def gen_ann_val(rng, depth=None, iters=True):
     """(annotation, conforming value)"""
     for _ in range(20):
         d = rng.choice([0, 0, 1, 1, 2]) if depth is None else depth
         a = GC.gen_ann(rng, d, top=True)
-        if rng.random() < 0.06:
-            a = ['gen', 'typing', 'Iterable', [GC.gen_ann(rng, 0)]]
+        if iters and rng.random() < 0.10:
+            a = iter_ann(rng)
         v = conf(rng, a)
         if v is not None:
             return a, v
@@ -397,6 +472,11 @@ def gen_case(rng, stream, forced=None, focus=None):
     c['params'] = params
     # return annotation and scripted body outcome
     ra, rv = gen_ann_val(rng)
+    if rng.random() < 0.05:      # the body returns (something that holds) a one-shot iterator
+        ra2 = iter_ann(rng)
+        rv2 = conf(rng, ra2)
+        if rv2 is not None:
+            ra, rv = ra2, rv2
     if kind == 'property':
         ra, rv = ['cls', 'NoneType'], ['none']
     c['ret'] = ra
@@ -462,6 +542,14 @@ def gen_case(rng, stream, forced=None, focus=None):
                 if w is not None:
                     c['args'][i] = w
                     c['mut'] = 'star'
+        elif positional_style and rng.random() < 0.35:
+            lead = [p for p in params if p['kind'] in ('pos', 'posonly')]
+            if lead and len(c['args']) >= len(lead):      # a non-conforming positional value for a NAMED parameter declared before *args
+                j = rng.randrange(len(lead))
+                w = wrong(rng, lead[j]['ann'], c['args'][j])
+                if w is not None:
+                    c['args'][j] = w
+                    c['mut'] = 'lead_positional'
         if c['mut'] == 'none':
             mutate_near(rng, c, kind, positional_style)
     elif stream == 'malformed':
@@ -510,6 +598,12 @@ def mutate_near(rng, c, kind, positional_style):
                     c['args'] = moved
                     c['kwargs'] = [kv for kv in c['kwargs'] if kv[0] not in [p['name'] for p in lead[:k]]]
                     c['mut'] = 'positional'
+                    if rng.random() < 0.35:      # ... one of them not conforming ("whichever parameter position it is in")
+                        j = rng.randrange(k)
+                        w = wrong(rng, lead[j]['ann'], moved[j])
+                        if w is not None:
+                            moved[j] = w
+                            c['mut'] = 'positional_bad'
                     if rng.random() < 0.3 and c['kwargs']:      # and corrupt nothing else: values all conform
                         pass
                     return
@@ -702,6 +796,9 @@ def judge_corr(case, i, m):
         return f'outcome: implementation {i["out"]} ({i.get("exc")}), model {m["out"]}'
     if not journal_agrees(i['journal'], m['journal']):
         return f'journal: implementation {json.dumps(i["journal"])[:300]}, model {json.dumps(m["journal"])[:300]}'
+    if i['out'] == 0 and 'result_consumed' in i and bool(i['result_consumed']) != bool(m['res_drained']):
+        return (f'one-shot iterators inside the result as the caller receives it: implementation consumed={i["result_consumed"]}, '
+                f'model consumed={bool(m["res_drained"])}')
     return None
 
 
@@ -740,6 +837,8 @@ def judge_c04(case, i, m):
                 f'{json.dumps(m["twin_journal"])[:300]}')
     if not i.get('same_object', True):
         return 'conforming keyword call: the caller did not receive the very object the body produced / raised'
+    if i.get('result_consumed'):
+        return 'conforming keyword call: the result reached the caller with a one-shot iterator inside it exhausted by the check'
     return None
 
 
@@ -778,7 +877,7 @@ def names_varpos_args(fn):
 
 
 def is_iterable_ann(a):
-    return bool(a) and a[0] == 'gen' and a[1] == 'typing' and a[2] == 'Iterable'
+    return bool(a) and a[0] == 'gen' and a[2] == 'Iterable'
 
 
 def iter_under_iterable(case, fn):
@@ -836,7 +935,14 @@ def resumed_after_exhaustion(case):
 
 MATCHERS = {
     # id -> predicate(case, fn)
-    'oneshot_iterator_under_iterable': lambda c, fn: iter_under_iterable(c, fn),
+    # the model's own account of the checker's traversal (Spec.PedanticSpec.no_iterator_consumed / result_intact on this very case)
+    'oneshot_iterator_under_iterable': lambda c, fn: (c.get('_mflags') or {}).get('no_iter_consumed') == 0 and iter_under_iterable(c, fn),
+    'oneshot_iterator_nested': lambda c, fn: (c.get('_mflags') or {}).get('no_iter_consumed') == 0 and not iter_under_iterable(c, fn),
+    'oneshot_iterator_in_result': lambda c, fn: (c.get('_mflags') or {}).get('result_intact') == 0,
+    # a defaulted named parameter (not the receiver) that the call fills positionally
+    'defaulted_param_filled_positionally': lambda c, fn: any(p['default'] is not None and j < len(c['args']) for j, p in enumerate(lead_params(c, fn))),
+    # next() after the generator was started, where the send type does not accept None
+    'generator_next_with_send_type': lambda c, fn: bool((c.get('_mflags') or {}).get('next_rejected')),
     'self_passed_by_keyword': lambda c, fn: bool(c.get('self_kw')),
     'classmethod_of_pedantic_class_via_subclass': lambda c, fn: c['style'] == 'class_deco' and c['mkind'] == 'class'
                                                                and c.get('via') in ('subclass', 'sub_instance'),
@@ -867,6 +973,24 @@ MATCHERS = {
                                                  and any(o[0] == 'throw' for o in c.get('ops', [])),
     'pedantic_text_in_method_of_pedantic_class': lambda c, fn: c['style'] == 'class_deco' and fn['text']['pedantic'],
 }
+
+
+def mflags(case, m):
+    """the verdicts of the model's specification predicates that matchers may consult"""
+    if m is None:
+        return {}
+    if case.get('gen'):
+        return {'next_rejected': any(o[0] == 'next' and initialized_before(case, idx) and not flag(m.get('ok_sent', []), idx, 1)
+                                     for idx, o in enumerate(case.get('ops', [])))}
+    return {'no_iter_consumed': m.get('no_iter_consumed'), 'result_intact': m.get('result_intact')}
+
+
+def lead_params(c, fn):
+    """the named parameters that positional values of the call fill, in order (without the receiver parameter)"""
+    lead = [q for q in fn['params'] if q['kind'] in ('pos', 'posonly')]
+    if lead and c.get('recv_name') is not None and lead[0]['name'] == c['recv_name']:
+        lead = lead[1:]
+    return lead
 
 
 def what_class(what):
@@ -1002,7 +1126,7 @@ def shrink_first(ck, judge, rounds=4):
                     agrees = judge_corr(c, i, m) is None
                 except Exception:      # noqa
                     agrees = False
-                cc = dict(c, _fn=i['fn'], _sym=symptom(i, w) if w else None, _agrees=agrees)
+                cc = dict(c, _fn=i['fn'], _sym=symptom(i, w) if w else None, _agrees=agrees, _mflags=mflags(c, m))
                 if w and re.sub(r'\d+', 'N', w)[:60] == klass and not any(f['status'] == 'open' and matcher(f, cc) for f in ck.findings):
                     ok.append((size_of(c), cc, w, i, m))
         if not ok:
@@ -1029,7 +1153,7 @@ def run(pid, props, tier, seed, replay=None):
     ck.replay_known_findings(still_fails)
     cases = gen_cases(ck.rng, tier, ck.scale()) if (replay is None or 'case' not in replay) else [replay['case']]
     for c in cases:
-        for key in ('_fn', '_sym', '_agrees'):
+        for key in ('_fn', '_sym', '_agrees', '_mflags'):
             c.pop(key, None)
     results = evaluate(ck, cases)
     hist, disagreements = {}, []
@@ -1066,13 +1190,16 @@ def run(pid, props, tier, seed, replay=None):
         if c['text'] != 'none': bump('text-varied')
         for flag in ('c03_args_bad', 'c03_result_bad', 'c04_call_ok', 'c05_positional'):
             if m[flag]: bump('spec:' + flag)
+        if m.get('c03_positional_bad'): bump('spec:c03_positional_bad')
+        if m.get('no_iter_consumed') == 0: bump('iterator-consumed:argument' + ('' if iter_under_iterable(c, i['fn']) else '(nested)'))
+        if m.get('result_intact') == 0 and i['out'] == 0: bump('iterator-consumed:result')
         what = judge(c, i, m)
         try:
             corr = judge_corr(c, i, m)
         except Exception as ex:      # noqa
             corr = f'outcome of an unexpected shape ({type(ex).__name__}: {ex})'
         if what:
-            cc = dict(c, _fn=i['fn'], _sym=symptom(i, what), _agrees=(corr is None))
+            cc = dict(c, _fn=i['fn'], _sym=symptom(i, what), _agrees=(corr is None), _mflags=mflags(c, m))
             ck.violation(what, cc, stream='pedantic/' + c['stream'], extra={'impl': {k: v for k, v in i.items() if k != 'fn'}, 'model': m},
                          matcher=matcher)
             if corr:
@@ -1099,8 +1226,10 @@ def run(pid, props, tier, seed, replay=None):
         'getsource / ismethod are modelled (Base/PyCall.v, the reification in w_pedantic.py), validated by this correspondence only',
         'the type checker is the model of C01/C02 (Model/Checker.v over Gen/CheckerTables.v); theorems are stated relative to it',
         'values\' dunder methods are the builtin ones; class identity = class name',
-        'one-shot iterators are tracked at the top level of an argument only, and only where the implementation checks the value once '
-        '(not for a positional value of a named parameter of a *args function)',
+        'one-shot iterators are tracked at every depth of the supplied values and of the result, and placed where the model of the '
+        'checker\'s traversal is exact (through generics, Tuple[...] and Optional[...]; not inside sets / keys / other iterators, not '
+        'under other unions, not for a positional value of a named parameter of a *args function (checked twice), not in values that '
+        'travel through a GeneratorWrapper)',
     ]
     return ck.finish(
         rule='generated modules (real files) x calls: signatures with all parameter kinds / defaults / *args / **kwargs, plain functions, '
@@ -1125,10 +1254,16 @@ def no_fwd(a):
 
 def plain_ann_val(rng, depth=None):
     for _ in range(30):
-        a, v = gen_ann_val(rng, depth)
+        a, v = gen_ann_val(rng, depth, iters=False)
         if no_fwd(a) and v[0] != 'iter':
             return a, v
     return ['cls', 'int'], ['int', 1]
+
+
+def gconf(rng, a):
+    """values that travel through the GeneratorWrapper carry no one-shot iterators (their state is not modelled there)"""
+    v = conf(rng, a)
+    return strip_iters(v, False) if v is not None else None
 
 
 def gen_gen_case(rng, stream):
@@ -1144,27 +1279,29 @@ def gen_gen_case(rng, stream):
     c['kwargs'] = [[p['name'], vals[p['name']]] for p in params if p['kind'] in ('pos', 'kwonly') and (p['default'] is None or rng.random() < 0.5)]
     c['args'] = []
     Y, yv = plain_ann_val(rng)
+    yv = strip_iters(yv, False)
     form = rng.choice(['Generator'] * 6 + ['Iterator', 'Iterable'])
     if form == 'Generator':
         S, sv = plain_ann_val(rng, 0)
         if rng.random() < 0.5:       # so that next() is a conforming send(None)
             S = ['union', 'typing', [S, ['cls', 'NoneType']]] if S != ['cls', 'NoneType'] and S[0] != 'none' else S
         R, rv = plain_ann_val(rng, rng.choice([0, 1]))
+        rv = strip_iters(rv, False)
         c['ret'] = ['gen', 'typing', 'Generator', [Y, S, R]]
     else:
         S, R, rv = ['none'], ['none'], ['none']
         c['ret'] = ['gen', 'typing', form, [Y]]
     script = []
     for _ in range(rng.choice([0, 1, 2, 2, 3, 4])):
-        script.append(['yield', conf(rng, Y) or yv])
-    script.append(rng.choice([['ret', conf(rng, R) or rv]] * 4 + [['ret', ['none']], ['raise', rng.choice(BODY_EXC)]]))
+        script.append(['yield', gconf(rng, Y) or yv])
+    script.append(rng.choice([['ret', gconf(rng, R) or rv]] * 4 + [['ret', ['none']], ['raise', rng.choice(BODY_EXC)]]))
     ops = []
     for k in range(rng.choice([1, 2, 3, 4, 5, 6])):
         r = rng.random()
         if k == 0 or r < 0.35:
             ops.append(['next'])
         elif r < 0.8:
-            ops.append(['send', conf(rng, S) or ['none']])
+            ops.append(['send', gconf(rng, S) or ['none']])
         elif r < 0.93:
             ops.append(['throw', rng.choice([[0, 1], [0, 20], [0, 2]])])
         else:
@@ -1172,7 +1309,7 @@ def gen_gen_case(rng, stream):
     c['script'], c['ops'] = script, ops
     c['drive'] = 'yield_from' if rng.random() < 0.4 else 'direct'      # the wrapper driven directly, or through `yield from`
     r = rng.random()
-    c['on_throw'] = 'propagate' if r < 0.5 else ['yield', conf(rng, Y) or yv] if r < 0.8 else ['ret', conf(rng, R) or rv]
+    c['on_throw'] = 'propagate' if r < 0.5 else ['yield', gconf(rng, Y) or yv] if r < 0.8 else ['ret', gconf(rng, R) or rv]
     if stream == 'near':
         opts = ['yield', 'yield', 'ret', 'sent', 'sent', 'throw_obj', 'kwval']
         rng.shuffle(opts)
@@ -1294,7 +1431,8 @@ def gen_judge_c04(case, i, m):
     if m['out'] != 0:          # the model says the call itself fails: only the call can be judged
         return None if i['out'] == 0 else f'conforming keyword call of a generator function: outcome {i["out"]} ({i.get("exc")})'
     ok = all((flag(m['ok_yield'], k) if s[0] == 'yield' else flag(m['ok_ret'], k) if s[0] == 'ret' else 1) for k, s in enumerate(script))
-    ok = ok and all(flag(m['ok_sent'], idx) for idx, o in enumerate(case['ops']) if o[0] in ('send', 'next') and initialized_before(case, idx))
+    # (a next() is not a value the caller sends: it must behave like next() on the undecorated generator whatever the send type)
+    ok = ok and all(flag(m['ok_sent'], idx) for idx, o in enumerate(case['ops']) if o[0] == 'send' and initialized_before(case, idx))
     if case.get('on_throw', 'propagate') != 'propagate':
         ok = ok and flag(m['ok_throw'], 0 if case['on_throw'][0] == 'yield' else 1)
     if not ok:
